@@ -63,7 +63,18 @@ int main() {
         doc.remove(0);
         bool reusable = doc.add(7) && doc[doc.size() - 1] == 7 && doc.size() == (size_t)n && wellFormed(doc);
         doc.clear();
-        bool clearok = !doc.overflowed() && doc.add(1) && doc.size() == 1;
+        // usable again after it is cleared: the same number of elements fits again, twice over
+        bool clearok = !doc.overflowed();
+        for (int round = 0; round < 2 && clearok; round++) {
+          long n2 = 0;
+          while (n2 < (long)N + 10 && doc.add((int)(n2 % 1000))) n2++;
+          clearok = n2 == n && doc.size() == (size_t)n && wellFormed(doc);
+          long k2 = 0;
+          for (JsonVariantConst v : doc.as<JsonArrayConst>()) { if (v.as<int>() != (int)(k2 % 1000)) clearok = false; k2++; }
+          doc.clear();
+          clearok = clearok && !doc.overflowed();
+        }
+        clearok = clearok && doc.add(1) && doc.size() == 1;
         emit(g_scn, n, r, ovf, intact, reusable, clearok, 0, true);
       }
       ledger = a.liveBlocks() == 0 && a.errors().empty();
@@ -86,7 +97,14 @@ int main() {
         doc.remove(0);
         bool reusable = doc.add((long long)1099511627776LL) && wellFormed(doc);
         doc.clear();
-        bool clearok = !doc.overflowed() && doc.add(1.5) && doc.size() == 1;
+        bool clearok = !doc.overflowed();
+        {
+          long n2 = 0;
+          while (n2 < (long)N + 10 && doc.add((long long)1099511627776LL + n2)) n2++;
+          clearok = clearok && n2 == n && doc.size() == (size_t)n && wellFormed(doc);
+          doc.clear();
+        }
+        clearok = clearok && !doc.overflowed() && doc.add(1.5) && doc.size() == 1;
         emit(g_scn, n, r, ovf, intact, reusable, clearok, extra, true);
       }
       if (!(a.liveBlocks() == 0 && a.errors().empty())) emit("elems64-ledger", 0, false, false, false, false, false, 0, false);
